@@ -99,8 +99,8 @@ PROPS["C08"] = {
     "modelled": SER_MODELLED,
 }
 PROPS["C09"] = {
-    "quick": [("ser", 80, 90)],
-    "thorough": [("serall", 600, 160), ("ser", 1000, 240)],
+    "quick": [("ser", 80, 90), ("joinser", 60, 12)],
+    "thorough": [("serall", 600, 160), ("ser", 1000, 240), ("joinser", 800, 16)],
     "rule": "for each sampled graph the real load() is called on prefixes of the real image: quick = the first and last 64 cut points and every 7th in between, thorough (serall) = every cut point; evaluations counts cut points; non-trivial = a history whose graph holds at least one collection-surviving state (>= 5 judged calls)",
     "nontrivial": "any5",
     "modelled": SER_MODELLED,
